@@ -216,6 +216,611 @@ where
           · have := ih h; omega
       omega
 
+/-! ### `covering_element` returns the *deepest* covering element -/
+
+theorem start_after_getOrAdd (r : Red) (p : Path) (i off : Nat) :
+    ∃ o, (r.getOrAdd p i off).start (p ++ [i]) = some o := by
+  unfold Red.getOrAdd
+  have hne : p ++ [i] ≠ [] := by simp
+  cases hl : r.slots.lookup (p ++ [i]) with
+  | some o => exact ⟨o, by simp [Red.start, hne, hl]⟩
+  | none => exact ⟨off, by simp [Red.start, hne, List.lookup]⟩
+
+theorem findCovering_root (rg : Nat × Nat) (k : Nat) (it : It) (r : Red) : (findCovering rg it r k).2.root = r.root := by
+  induction k generalizing it r with
+  | zero => rfl
+  | succ k ih =>
+    simp only [findCovering, It.nextElem]
+    cases hr : it.rest with
+    | nil => rfl
+    | cons x rest =>
+      simp only
+      cases hrg : (r.getOrAdd it.parent it.index it.offset).range (it.parent ++ [it.index]) with
+      | none => exact getOrAdd_root _ _ _ _
+      | some cr =>
+        simp only
+        split
+        · exact getOrAdd_root _ _ _ _
+        · rw [ih]; exact getOrAdd_root _ _ _ _
+
+/-- when `find` runs off the end, it has looked at every remaining child and none of them covers the range -/
+theorem findCovering_none (rg : Nat × Nat) (k : Nat) (it : It) (r : Red) (t : Green)
+    (hk : it.rest.length < k) (hrest : ∃ d, it.rest = t.children.drop d ∧ it.index = d)
+    (ht : r.green it.parent = some t) (h : (findCovering rg it r k).1 = none) :
+    ∀ j, it.index ≤ j → j < t.children.length →
+      ∃ cr, (findCovering rg it r k).2.range (it.parent ++ [j]) = some cr ∧ containsRange cr rg = false := by
+  induction k generalizing it r with
+  | zero => omega
+  | succ k ih =>
+    obtain ⟨d, hd, hi⟩ := hrest
+    intro j hj1 hj2
+    simp only [findCovering, It.nextElem] at h ⊢
+    cases hr : it.rest with
+    | nil =>
+      -- no children left: there is no such `j`
+      rw [hr] at hd
+      have : t.children.length ≤ d := by
+        have := congrArg List.length hd
+        simp at this; omega
+      omega
+    | cons x rest =>
+      simp only [hr] at h ⊢
+      have hx : t.children[it.index]? = some x := by
+        have := congrArg List.head? hd; rw [hr] at this; simp [List.head?_drop] at this; rw [hi]; exact this.symm
+      have hroot : (r.getOrAdd it.parent it.index it.offset).root = r.root := getOrAdd_root _ _ _ _
+      have hgc : (r.getOrAdd it.parent it.index it.offset).green (it.parent ++ [it.index]) = some x := by
+        unfold Red.green at ht ⊢; rw [hroot]
+        exact C03.get_child r.root it.parent t ht it.index x hx
+      obtain ⟨o, ho⟩ := start_after_getOrAdd r it.parent it.index it.offset
+      have hrg : (r.getOrAdd it.parent it.index it.offset).range (it.parent ++ [it.index]) = some (o, o + x.len) := by
+        simp [Red.range, ho, hgc]
+      simp only [hrg] at h ⊢
+      by_cases hc : containsRange (o, o + x.len) rg = true
+      · simp [hc] at h
+      · simp only [hc, Bool.false_eq_true, ↓reduceIte] at h ⊢
+        by_cases hji : j = it.index
+        · subst hji
+          refine ⟨(o, o + x.len), ?_, by simpa using hc⟩
+          exact range_findCovering hrg rg k _
+        · have hlen : rest.length < k := by rw [hr] at hk; simp at hk; omega
+          have := ih { it with rest := rest, index := it.index + 1, offset := it.offset + x.len }
+            (r.getOrAdd it.parent it.index it.offset) hlen
+            ⟨d + 1, by
+              have := congrArg List.tail hd; rw [hr] at this; simpa [List.tail_drop] using this, by simp [hi]⟩
+            (by unfold Red.green at ht ⊢; rw [hroot]; exact ht) h j (by simp; omega) hj2
+          exact this
+
+/-- **`covering_element` returns the deepest element containing the range**: the result is a token, or
+    a node none of whose children (all of them examined, with the ranges they report) contains the range -/
+theorem cover_deepest (n : Nat) (r : Red) (p : Path) (rg : Nat × Nat) (q : Path)
+    (h : (coveringGo n r p rg).1 = some q) :
+    (coveringGo n r p rg).2.isToken q = true ∨
+    ∃ t, (coveringGo n r p rg).2.green q = some t ∧
+      ∀ j, j < t.children.length →
+        ∃ cr, (coveringGo n r p rg).2.range (q ++ [j]) = some cr ∧ containsRange cr rg = false := by
+  induction n generalizing r p with
+  | zero => simp [coveringGo] at h
+  | succ n ih =>
+    simp only [coveringGo] at h ⊢
+    cases hr : r.range p with
+    | none => simp [hr] at h
+    | some pr =>
+      simp only [hr] at h ⊢
+      by_cases hc : containsRange pr rg = true
+      · simp only [hc, Bool.not_true, Bool.false_eq_true, ↓reduceIte] at h ⊢
+        by_cases htk : r.isToken p = true
+        · simp only [htk, ↓reduceIte, Option.some.injEq] at h ⊢
+          subst h; exact Or.inl htk
+        · simp only [htk, Bool.false_eq_true, ↓reduceIte] at h ⊢
+          cases hi : iterNew r p with
+          | none => simp [hi] at h
+          | some it =>
+            simp only [hi] at h ⊢
+            cases hf : findCovering rg it r (it.rest.length + 1) with
+            | mk o r' =>
+              rw [hf] at h
+              try simp only at h ⊢
+              cases o with
+              | some c => exact ih r' c h
+              | none =>
+                simp only [Option.some.injEq] at h
+                subst h
+                -- the iterator started at child 0 of the node at `p`
+                unfold iterNew at hi
+                cases hg : r.green p with
+                | none => simp [hg] at hi
+                | some t =>
+                  cases hs : r.start p with
+                  | none => simp [hg, hs] at hi
+                  | some o0 =>
+                    simp only [hg, hs, Option.some.injEq] at hi
+                    subst hi
+                    refine Or.inr ⟨t, ?_, ?_⟩
+                    · have := findCovering_root rg (t.children.length + 1) ⟨p, t.children, 0, o0⟩ r
+                      rw [hf] at this
+                      unfold Red.green at hg ⊢
+                      rw [this]; exact hg
+                    · intro j hj
+                      have := findCovering_none rg (t.children.length + 1) ⟨p, t.children, 0, o0⟩ r t (by simp)
+                        ⟨0, by simp, rfl⟩ hg (by rw [hf]) j (Nat.zero_le _) hj
+                      rw [hf] at this
+                      exact this
+      · simp [hc] at h
+
+/-! ### `token_at_offset`: the children that can contain the offset -/
+
+/-- the non-empty children whose (tiling) range contains `off`, with index and start offset -/
+def hitsG (off : Nat) : Nat → Nat → List Green → List (Nat × Nat × Green)
+  | _, _, [] => []
+  | b, i, c :: cs =>
+    (if c.len != 0 && decide (b ≤ off) && decide (off ≤ b + c.len) then [(i, b, c)] else []) ++ hitsG off (b + c.len) (i + 1) cs
+
+def Hit (off : Nat) (x : Nat × Nat × Green) : Prop := x.2.2.len ≠ 0 ∧ x.2.1 ≤ off ∧ off ≤ x.2.1 + x.2.2.len
+
+theorem hitsG_before (off b i : Nat) (cs : List Green) (h : off < b) : hitsG off b i cs = [] := by
+  induction cs generalizing b i with
+  | nil => rfl
+  | cons c cs ih =>
+    simp only [hitsG]
+    have : ¬ b ≤ off := by omega
+    simp only [this, decide_false, Bool.and_false, Bool.false_and, Bool.false_eq_true, ↓reduceIte, List.nil_append]
+    exact ih (b + c.len) (i + 1) (by omega)
+
+theorem hitsG_empty (off b i : Nat) (cs : List Green) (h : sumLen cs = 0) : hitsG off b i cs = [] := by
+  induction cs generalizing b i with
+  | nil => rfl
+  | cons c cs ih =>
+    simp only [sumLen] at h
+    have hc : c.len = 0 := by omega
+    simp only [hitsG, hc, bne_self_eq_false, Bool.false_and, Bool.false_eq_true, ↓reduceIte, List.nil_append]
+    exact ih (b + 0) (i + 1) (by omega)
+
+theorem hitsG_mem (off b i : Nat) (cs : List Green) (x : Nat × Nat × Green) (h : x ∈ hitsG off b i cs) :
+    ∃ k, cs[k]? = some x.2.2 ∧ x.1 = i + k ∧ x.2.1 = b + offsetIn cs k ∧ Hit off x := by
+  induction cs generalizing b i with
+  | nil => simp [hitsG] at h
+  | cons c cs ih =>
+    simp only [hitsG, List.mem_append] at h
+    rcases h with h | h
+    · split at h
+      · rename_i hc
+        simp only [List.mem_singleton] at h
+        subst h
+        simp only [Bool.and_eq_true, bne_iff_ne, ne_eq, decide_eq_true_eq] at hc
+        exact ⟨0, rfl, rfl, by simp [offsetIn_zero], hc.1.1, hc.1.2, hc.2⟩
+      · simp at h
+    · obtain ⟨k, h1, h2, h3, h4⟩ := ih (b + c.len) (i + 1) h
+      refine ⟨k + 1, by simpa using h1, by omega, ?_, h4⟩
+      rw [h3]
+      have : offsetIn (c :: cs) (k + 1) = c.len + offsetIn cs k := by
+        simp [offsetIn, sumLen]
+      omega
+
+/-- **one or two children**: inside a non-empty node the children tile its range, so the non-empty
+    children whose closed range contains the offset are exactly one — or exactly two that meet at the
+    offset, and then the offset is strictly inside the node -/
+theorem hitsG_shape (off b i : Nat) (cs : List Green) (h1 : b ≤ off) (h2 : off ≤ b + sumLen cs) (h3 : 0 < sumLen cs) :
+    (∃ x, hitsG off b i cs = [x]) ∨
+    (∃ x y, hitsG off b i cs = [x, y] ∧ x.2.1 + x.2.2.len = off ∧ y.2.1 = off ∧ b < off ∧ off < b + sumLen cs) := by
+  induction cs generalizing b i with
+  | nil => simp [sumLen] at h3
+  | cons c cs ih =>
+    simp only [sumLen] at h2 h3
+    simp only [hitsG]
+    by_cases hc0 : c.len = 0
+    · -- an empty child: skipped
+      simp only [hc0, bne_self_eq_false, Bool.false_and, Bool.false_eq_true, ↓reduceIte, List.nil_append, Nat.add_zero]
+      have := ih b (i + 1) h1 (by omega) (by omega)
+      simpa [sumLen, hc0] using this
+    · by_cases hlt : off < b + c.len
+      · -- strictly before the end of this child: it is the only one
+        have hrest := hitsG_before off (b + c.len) (i + 1) cs hlt
+        have : (c.len != 0 && decide (b ≤ off) && decide (off ≤ b + c.len)) = true := by
+          simp only [Bool.and_eq_true, bne_iff_ne, ne_eq, decide_eq_true_eq]; exact ⟨⟨hc0, h1⟩, by omega⟩
+        simp only [this, ↓reduceIte, hrest, List.append_nil]
+        exact Or.inl ⟨_, rfl⟩
+      · by_cases heq : off = b + c.len
+        · -- exactly at the end of this child
+          have : (c.len != 0 && decide (b ≤ off) && decide (off ≤ b + c.len)) = true := by
+            simp only [Bool.and_eq_true, bne_iff_ne, ne_eq, decide_eq_true_eq]; exact ⟨⟨hc0, h1⟩, by omega⟩
+          simp only [this, ↓reduceIte]
+          by_cases hs0 : sumLen cs = 0
+          · rw [hitsG_empty off (b + c.len) (i + 1) cs hs0]
+            exact Or.inl ⟨_, rfl⟩
+          · -- the next non-empty child starts here: by induction it is alone among the rest
+            rcases ih (b + c.len) (i + 1) (by omega) (by omega) (by omega) with ⟨y, hy⟩ | ⟨x, y, _, _, _, hlt', _⟩
+            · refine Or.inr ⟨(i, b, c), y, by simp [hy], by simp [heq], ?_, by omega, by simp only [sumLen]; omega⟩
+              have hm := hitsG_mem off (b + c.len) (i + 1) cs y (by rw [hy]; simp)
+              obtain ⟨k, _, _, hk3, hk4⟩ := hm
+              -- y contains off and starts at or after off
+              have : y.2.1 ≤ off := hk4.2.1
+              omega
+            · omega
+        · -- past this child
+          have : (c.len != 0 && decide (b ≤ off) && decide (off ≤ b + c.len)) = false := by
+            simp only [Bool.and_eq_false_iff, decide_eq_false_iff_not]
+            right; omega
+          simp only [this, Bool.false_eq_true, ↓reduceIte, List.nil_append]
+          rcases ih (b + c.len) (i + 1) (by omega) (by omega) (by omega) with h | ⟨x, y, hh, e1, e2, e3, e4⟩
+          · exact Or.inl h
+          · exact Or.inr ⟨x, y, hh, e1, e2, by omega, by simp only [sumLen]; omega⟩
+
+/-! ### what `children_with_tokens` leaves behind -/
+
+theorem start_collectElems {q : Path} {o : Nat} (k : Nat) (it : It) (r : Red) (h : r.start q = some o) :
+    (collectElems it r k).2.start q = some o := by
+  induction k generalizing it r with
+  | zero => exact h
+  | succ k ih =>
+    simp only [collectElems, It.nextElem]
+    cases hr : it.rest with
+    | nil => exact h
+    | cons c rest =>
+      simp only
+      exact ih _ _ (start_getOrAdd h _ _ _)
+
+theorem start_childrenWithTokens {q : Path} {o : Nat} (r : Red) (p : Path) (h : r.start q = some o) :
+    (r.childrenWithTokens p).2.start q = some o := by
+  unfold Red.childrenWithTokens
+  cases iterNew r p with
+  | none => exact h
+  | some it => exact start_collectElems _ it r h
+
+/-- every child the iterator walks over is materialised afterwards -/
+theorem collectElems_mat (k : Nat) (it : It) (r : Red) (hk : it.rest.length < k) (j : Nat)
+    (h1 : it.index ≤ j) (h2 : j < it.index + it.rest.length) :
+    ∃ o, (collectElems it r k).2.start (it.parent ++ [j]) = some o := by
+  induction k generalizing it r with
+  | zero => omega
+  | succ k ih =>
+    simp only [collectElems, It.nextElem]
+    cases hr : it.rest with
+    | nil => rw [hr] at h2; simp at h2; omega
+    | cons c rest =>
+      simp only
+      by_cases hj : j = it.index
+      · subst hj
+        obtain ⟨o, ho⟩ := start_after_getOrAdd r it.parent it.index it.offset
+        exact ⟨o, start_collectElems k _ _ ho⟩
+      · have := ih { it with rest := rest, index := it.index + 1, offset := it.offset + c.len }
+          (r.getOrAdd it.parent it.index it.offset) (by rw [hr] at hk; simp at hk; simp; omega)
+          (by simp; omega) (by rw [hr] at h2; simp at h2 ⊢; omega)
+        exact this
+
+/-- **after `children_with_tokens`**: the result lists all children in order, the red tree is still
+    canonical, and every child reports the tiling range `start + Σ len(earlier siblings)` -/
+theorem children_ranges {r : Red} (hr : RInv r) (p : Path) (t : Green) (s : Nat)
+    (hg : r.green p = some t) (hs : r.start p = some s) :
+    (r.childrenWithTokens p).1 = (List.range t.children.length).map (fun j => p ++ [j]) ∧
+    RInv (r.childrenWithTokens p).2 ∧ (r.childrenWithTokens p).2.root = r.root ∧
+    ∀ i c, t.children[i]? = some c →
+      (r.childrenWithTokens p).2.start (p ++ [i]) = some (s + offsetIn t.children i) ∧
+      (r.childrenWithTokens p).2.green (p ++ [i]) = some c := by
+  have hk := childrenWithTokens_keeps p r hr
+  have hcan : canon r.root p = some s := hr.canon.start hs
+  refine ⟨?_, hk.1, hk.2, ?_⟩
+  · simp only [Red.childrenWithTokens, iterNew, hg, hs]
+    rw [C03.collectElems_spec _ _ _ (by simp)]
+    simp [List.range_eq_range']
+  · intro i c hc
+    have hi : i < t.children.length := (List.getElem?_eq_some_iff.mp hc).1
+    have hgc : (r.childrenWithTokens p).2.green (p ++ [i]) = some c := by
+      unfold Red.green at hg ⊢
+      rw [hk.2]
+      exact C03.get_child r.root p t hg i c hc
+    refine ⟨?_, hgc⟩
+    have hmat : ∃ o, (r.childrenWithTokens p).2.start (p ++ [i]) = some o := by
+      simp only [Red.childrenWithTokens, iterNew, hg, hs]
+      exact collectElems_mat _ ⟨p, t.children, 0, s⟩ r (by simp) i (Nat.zero_le _) (by simpa using hi)
+    obtain ⟨o, ho⟩ := hmat
+    have := hk.1.canon.start ho
+    rw [hk.2] at this
+    unfold Red.green at hg
+    rw [canon_append_single r.root p i t c s hg hc hcan] at this
+    cases this
+    exact ho
+
+/-! ### the filter of `token_at_offset` is `hitsG` -/
+
+def pureHit (off s : Nat) (cs : List Green) (i : Nat) : Bool :=
+  match cs[i]? with
+  | some c => c.len != 0 && decide (s + offsetIn cs i ≤ off) && decide (off ≤ s + offsetIn cs i + c.len)
+  | none => false
+
+theorem offsetIn_prefix (pre post : List Green) : offsetIn (pre ++ post) pre.length = sumLen pre := by
+  simp [offsetIn]
+
+theorem filter_pureHit (off s : Nat) (pre post : List Green) :
+    (List.range' pre.length post.length).filter (pureHit off s (pre ++ post)) =
+      (hitsG off (s + sumLen pre) pre.length post).map (·.1) := by
+  induction post generalizing pre with
+  | nil => simp [hitsG]
+  | cons c post ih =>
+    have hget : (pre ++ c :: post)[pre.length]? = some c := by simp
+    have hih := ih (pre ++ [c])
+    have e1 : pre ++ [c] ++ post = pre ++ c :: post := by simp
+    have e2 : (pre ++ [c]).length = pre.length + 1 := by simp
+    have e3 : sumLen (pre ++ [c]) = sumLen pre + c.len := by rw [sumLen_append]; simp [sumLen]
+    rw [e1, e2, e3] at hih
+    simp only [List.length_cons, List.range'_succ, List.filter_cons, hitsG]
+    have hp : pureHit off s (pre ++ c :: post) pre.length =
+        (c.len != 0 && decide (s + sumLen pre ≤ off) && decide (off ≤ s + sumLen pre + c.len)) := by
+      simp only [pureHit, hget, offsetIn_prefix]
+    rw [hp, hih]
+    have e4 : s + sumLen pre + c.len = s + (sumLen pre + c.len) := by omega
+    rw [e4]
+    split <;> simp
+
+theorem ne_add_iff (a l : Nat) : (a != a + l) = (l != 0) := by
+  cases l with
+  | zero => simp
+  | succ k => simp
+
+/-- the children `token_at_offset` keeps are the non-empty ones whose tiling range contains the offset -/
+theorem filter_children {r : Red} (hr : RInv r) (p : Path) (t : Green) (s off : Nat)
+    (hg : r.green p = some t) (hs : r.start p = some s) :
+    (r.childrenWithTokens p).1.filter (nonEmptyContaining (r.childrenWithTokens p).2 off) =
+      (hitsG off s 0 t.children).map (fun x => p ++ [x.1]) := by
+  obtain ⟨hcs, _, _, hch⟩ := children_ranges hr p t s hg hs
+  rw [hcs, List.filter_map]
+  have : (List.range t.children.length).filter (nonEmptyContaining (r.childrenWithTokens p).2 off ∘ fun j => p ++ [j]) =
+      (List.range t.children.length).filter (pureHit off s t.children) := by
+    apply List.filter_congr
+    intro i hi
+    have hi' : i < t.children.length := List.mem_range.mp hi
+    obtain ⟨c, hc⟩ : ∃ c, t.children[i]? = some c := ⟨t.children[i], List.getElem?_eq_getElem hi'⟩
+    obtain ⟨h1, h2⟩ := hch i c hc
+    simp only [Function.comp, nonEmptyContaining, Red.range, h1, h2, pureHit, hc, ne_add_iff]
+  rw [this]
+  have := filter_pureHit off s [] t.children
+  simp only [List.length_nil, List.nil_append, sumLen, Nat.add_zero] at this
+  rw [List.range_eq_range', this]
+  simp [List.map_map]
+
+/-! ### `token_at_offset` is total inside its precondition and returns the right tokens -/
+
+theorem offsetIn_add_le (cs : List Green) (k : Nat) (c : Green) (h : cs[k]? = some c) :
+    offsetIn cs k + c.len ≤ sumLen cs := by
+  induction cs generalizing k with
+  | nil => simp at h
+  | cons d ds ih =>
+    cases k with
+    | zero =>
+      simp only [List.getElem?_cons_zero, Option.some.injEq] at h
+      subst h
+      simp [offsetIn, sumLen]
+    | succ k =>
+      simp only [List.getElem?_cons_succ] at h
+      have := ih k h
+      have e : offsetIn (d :: ds) (k + 1) = d.len + offsetIn ds k := by simp [offsetIn, sumLen]
+      rw [e]
+      simp only [sumLen]
+      omega
+
+theorem child_smaller' (t x : Green) (h : x ∈ t.children) : gsize x < gsize t := by
+  cases t with
+  | tok _ _ _ _ => simp [Green.children] at h
+  | node _ _ _ _ cs =>
+    simp only [Green.children] at h
+    simp only [gsize]
+    have : gsize x ≤ gsizeL cs := by
+      induction cs with
+      | nil => simp at h
+      | cons y ys ih =>
+        simp only [List.mem_cons] at h
+        simp only [gsizeL]
+        rcases h with rfl | h
+        · omega
+        · have := ih h; omega
+    omega
+
+/-- a non-empty token whose closed range contains the offset and lies inside `[s, e]` -/
+def TokAt (r : Red) (s e off : Nat) (q : Path) (a b : Nat) : Prop :=
+  r.isToken q = true ∧ r.range q = some (a, b) ∧ a ≠ b ∧ a ≤ off ∧ off ≤ b ∧ s ≤ a ∧ b ≤ e
+
+/-- what a correct answer for a non-empty node with range `[s, e]` looks like -/
+def TaoOk (r : Red) (s e off : Nat) : TAO → Prop
+  | .single q => ∃ a b, TokAt r s e off q a b
+  | .between l q => ∃ a b, TokAt r s e off l a off ∧ TokAt r s e off q off b ∧ s < off ∧ off < e
+  | _ => False
+
+theorem TokAt.mono {r r' : Red} {s e off : Nat} {q : Path} {a b : Nat} (h : TokAt r s e off q a b)
+    (hroot : r'.root = r.root) (hst : ∀ q o, r.start q = some o → r'.start q = some o) :
+    TokAt r' s e off q a b := by
+  obtain ⟨h1, h2, h3⟩ := h
+  refine ⟨by unfold Red.isToken Red.green at h1 ⊢; rw [hroot]; exact h1, ?_, h3⟩
+  unfold Red.range at h2 ⊢
+  cases hs : r.start q with
+  | none => simp [hs] at h2
+  | some o =>
+    rw [hst q o hs]
+    unfold Red.green at h2 ⊢
+    rw [hroot]
+    simpa [hs] using h2
+
+theorem TokAt.widen {r : Red} {s e s' e' off : Nat} {q : Path} {a b : Nat} (h : TokAt r s e off q a b)
+    (h1 : s' ≤ s) (h2 : e ≤ e') : TokAt r s' e' off q a b := by
+  obtain ⟨a1, a2, a3, a4, a5, a6, a7⟩ := h
+  exact ⟨a1, a2, a3, a4, a5, by omega, by omega⟩
+
+theorem isToken_of_green {r : Red} {p : Path} {t : Green} (h : r.green p = some t) : r.isToken p = !t.isNode := by
+  simp [Red.isToken, h]
+
+theorem range_of {r : Red} {p : Path} {t : Green} {s : Nat} (hg : r.green p = some t) (hs : r.start p = some s) :
+    r.range p = some (s, s + t.len) := by
+  simp [Red.range, hg, hs]
+
+/-- **`token_at_offset`** on a canonical red tree, for an offset inside the element's range: never
+    panics; a token answers itself; an empty node answers `None`; a non-empty node answers with one
+    non-empty token whose closed range contains the offset, or — only when the offset is strictly
+    inside the node — with the two non-empty tokens that meet at the offset -/
+theorem tao_go (n : Nat) : ∀ (r : Red) (p : Path) (t : Green) (s off : Nat), RInv r → r.green p = some t →
+    r.start p = some s → gsize t ≤ n → s ≤ off → off ≤ s + t.len →
+    RInv (tokenAtOffsetGo n r p off).2 ∧ (tokenAtOffsetGo n r p off).2.root = r.root ∧
+    (∀ q o, r.start q = some o → (tokenAtOffsetGo n r p off).2.start q = some o) ∧
+    (t.isNode = false → (tokenAtOffsetGo n r p off).1 = .single p) ∧
+    (t.isNode = true → t.len = 0 → (tokenAtOffsetGo n r p off).1 = .none) ∧
+    (t.isNode = true → 0 < t.len →
+      TaoOk (tokenAtOffsetGo n r p off).2 s (s + t.len) off (tokenAtOffsetGo n r p off).1) := by
+  induction n with
+  | zero => intro r p t s off _ _ _ hsz; cases t <;> simp [gsize] at hsz
+  | succ n ih =>
+    intro r p t s off hr hg hs hsz h1 h2
+    have hrange := range_of hg hs
+    have htok := isToken_of_green hg
+    have hin : (decide (s ≤ off) && decide (off ≤ s + t.len)) = true := by simp [h1, h2]
+    by_cases hnode : t.isNode = true
+    · -- a node
+      by_cases hlen : t.len = 0
+      · -- empty: `None`
+        have heq : (s == s + t.len) = true := by simp [hlen]
+        have hres : tokenAtOffsetGo (n + 1) r p off = (.none, r) := by
+          simp [tokenAtOffsetGo, hrange, hin, htok, hnode, heq]
+        rw [hres]
+        exact ⟨hr, rfl, fun _ _ h => h, by simp [hnode], fun _ _ => rfl, fun _ h => by omega⟩
+      · -- non-empty: look at the children
+        have hsum : t.len = sumLen t.children := LenOk_len (by
+          have := hr.lens; unfold Red.green at hg; exact LenOk_get this hg) hnode
+        obtain ⟨hcs, hr1, hroot1, hch⟩ := children_ranges hr p t s hg hs
+        have hfilter := filter_children hr p t s off hg hs
+        have hmono1 : ∀ q o, r.start q = some o → (r.childrenWithTokens p).2.start q = some o :=
+          fun q o h => start_childrenWithTokens r p h
+        have hne : (s == s + t.len) = false := by simp; omega
+        -- facts about a hit child: where it sits in the new state, and that it is smaller
+        have hchild : ∀ x, x ∈ hitsG off s 0 t.children →
+            (r.childrenWithTokens p).2.green (p ++ [x.1]) = some x.2.2 ∧
+            (r.childrenWithTokens p).2.start (p ++ [x.1]) = some x.2.1 ∧ gsize x.2.2 ≤ n ∧
+            Hit off x ∧ s ≤ x.2.1 ∧ x.2.1 + x.2.2.len ≤ s + t.len := by
+          intro x hx
+          obtain ⟨k, hk1, hk2, hk3, hk4⟩ := hitsG_mem off s 0 t.children x hx
+          have hk2' : x.1 = k := by omega
+          obtain ⟨e1, e2⟩ := hch k x.2.2 hk1
+          have hsm := child_smaller' t x.2.2 (List.mem_of_getElem? hk1)
+          have hle := offsetIn_add_le t.children k x.2.2 hk1
+          rw [hk2', hk3]
+          exact ⟨e2, e1, by omega, hk4, by omega, by omega⟩
+        rcases hitsG_shape off s 0 t.children h1 (by omega) (by omega) with ⟨x, hx⟩ | ⟨x, y, hxy, ex, ey, hlo, hhi⟩
+        · -- exactly one child: recurse into it
+          obtain ⟨cg, cst, csz, chit, clo, chi⟩ := hchild x (by rw [hx]; simp)
+          have hres : tokenAtOffsetGo (n + 1) r p off =
+              tokenAtOffsetGo n (r.childrenWithTokens p).2 (p ++ [x.1]) off := by
+            simp only [tokenAtOffsetGo, hrange, hin, htok, hnode, hne, Bool.not_true, Bool.false_eq_true, ↓reduceIte,
+              Bool.not_false]
+            rw [hfilter, hx]
+            simp
+          rw [hres]
+          obtain ⟨i1, i2, i3, i4, i5, i6⟩ := ih (r.childrenWithTokens p).2 (p ++ [x.1]) x.2.2 x.2.1 off hr1 cg cst csz chit.2.1 chit.2.2
+          refine ⟨i1, i2.trans hroot1, fun q o h => i3 q o (hmono1 q o h), by simp [hnode], fun _ h => absurd h hlen, ?_⟩
+          intro _ _
+          by_cases hcn : x.2.2.isNode = true
+          · have := i6 hcn (Nat.pos_of_ne_zero chit.1)
+            -- widen from the child's range to the node's
+            revert this
+            cases (tokenAtOffsetGo n (r.childrenWithTokens p).2 (p ++ [x.1]) off).1 with
+            | none => exact id
+            | panic => exact id
+            | single q => intro ⟨a, b, h⟩; exact ⟨a, b, h.widen clo chi⟩
+            | between l q =>
+              intro ⟨a, b, hl, hq, e1, e2⟩
+              exact ⟨a, b, hl.widen clo chi, hq.widen clo chi, by omega, by omega⟩
+          · have hsingle := i4 (by simpa using hcn)
+            rw [hsingle]
+            refine ⟨x.2.1, x.2.1 + x.2.2.len, ?_⟩
+            have hg' : (tokenAtOffsetGo n (r.childrenWithTokens p).2 (p ++ [x.1]) off).2.green (p ++ [x.1]) = some x.2.2 := by
+              unfold Red.green at cg ⊢; rw [i2]; exact cg
+            refine ⟨by rw [isToken_of_green hg']; simpa using hcn, range_of hg' (i3 _ _ cst), ?_, chit.2.1, chit.2.2, clo, chi⟩
+            have := chit.1; omega
+        · -- two children meeting at the offset
+          obtain ⟨xg, xst, xsz, xhit, xlo, xhi⟩ := hchild x (by rw [hxy]; simp)
+          obtain ⟨yg, yst, ysz, yhit, ylo, yhi⟩ := hchild y (by rw [hxy]; simp)
+          obtain ⟨a1, a2, a3, a4, a5, a6⟩ := ih (r.childrenWithTokens p).2 (p ++ [x.1]) x.2.2 x.2.1 off hr1 xg xst xsz xhit.2.1 xhit.2.2
+          have yg' : (tokenAtOffsetGo n (r.childrenWithTokens p).2 (p ++ [x.1]) off).2.green (p ++ [y.1]) = some y.2.2 := by
+            unfold Red.green at yg ⊢; rw [a2]; exact yg
+          obtain ⟨b1, b2, b3, b4, b5, b6⟩ := ih (tokenAtOffsetGo n (r.childrenWithTokens p).2 (p ++ [x.1]) off).2
+            (p ++ [y.1]) y.2.2 y.2.1 off a1 yg' (a3 _ _ yst) ysz yhit.2.1 yhit.2.2
+          -- the left answer is a single token ending at the offset
+          have hleft : ∃ ql al, (tokenAtOffsetGo n (r.childrenWithTokens p).2 (p ++ [x.1]) off).1 = .single ql ∧
+              TokAt (tokenAtOffsetGo n (r.childrenWithTokens p).2 (p ++ [x.1]) off).2 s (s + t.len) off ql al off := by
+            by_cases hcn : x.2.2.isNode = true
+            · have := a6 hcn (Nat.pos_of_ne_zero xhit.1)
+              revert this
+              cases (tokenAtOffsetGo n (r.childrenWithTokens p).2 (p ++ [x.1]) off).1 with
+              | none => exact False.elim
+              | panic => exact False.elim
+              | single q =>
+                intro ⟨a, b, h⟩
+                have hb : b = off := by obtain ⟨_, _, _, _, u1, _, u2⟩ := h; omega
+                subst hb
+                exact ⟨q, a, rfl, h.widen xlo xhi⟩
+              | between l q => intro ⟨_, _, _, _, _, e2⟩; omega
+            · have hsingle := a4 (by simpa using hcn)
+              have hg' : (tokenAtOffsetGo n (r.childrenWithTokens p).2 (p ++ [x.1]) off).2.green (p ++ [x.1]) = some x.2.2 := by
+                unfold Red.green at xg ⊢; rw [a2]; exact xg
+              refine ⟨p ++ [x.1], x.2.1, hsingle, by rw [isToken_of_green hg']; simpa using hcn, ?_, ?_, xhit.2.1, by omega, xlo, by omega⟩
+              · rw [range_of hg' (a3 _ _ xst), ex]
+              · have := xhit.1; omega
+          have hright : ∃ qr br, (tokenAtOffsetGo n (tokenAtOffsetGo n (r.childrenWithTokens p).2 (p ++ [x.1]) off).2 (p ++ [y.1]) off).1 = .single qr ∧
+              TokAt (tokenAtOffsetGo n (tokenAtOffsetGo n (r.childrenWithTokens p).2 (p ++ [x.1]) off).2 (p ++ [y.1]) off).2 s (s + t.len) off qr off br := by
+            by_cases hcn : y.2.2.isNode = true
+            · have := b6 hcn (Nat.pos_of_ne_zero yhit.1)
+              revert this
+              cases (tokenAtOffsetGo n (tokenAtOffsetGo n (r.childrenWithTokens p).2 (p ++ [x.1]) off).2 (p ++ [y.1]) off).1 with
+              | none => exact False.elim
+              | panic => exact False.elim
+              | single q =>
+                intro ⟨a, b, h⟩
+                have ha : a = off := by obtain ⟨_, _, _, u1, _, u2, _⟩ := h; omega
+                subst ha
+                exact ⟨q, b, rfl, h.widen ylo yhi⟩
+              | between l q => intro ⟨_, _, _, _, e1, _⟩; omega
+            · have hsingle := b4 (by simpa using hcn)
+              have hg' : (tokenAtOffsetGo n (tokenAtOffsetGo n (r.childrenWithTokens p).2 (p ++ [x.1]) off).2 (p ++ [y.1]) off).2.green (p ++ [y.1]) = some y.2.2 := by
+                unfold Red.green at yg' ⊢; rw [b2]; exact yg'
+              refine ⟨p ++ [y.1], y.2.1 + y.2.2.len, hsingle, by rw [isToken_of_green hg']; simpa using hcn, ?_, ?_, by omega, yhit.2.2, by omega, yhi⟩
+              · rw [range_of hg' (b3 _ _ (a3 _ _ yst)), ey]
+              · have := yhit.1; omega
+          obtain ⟨ql, al, hl1, hl2⟩ := hleft
+          obtain ⟨qr, br, hr1', hr2⟩ := hright
+          have hres : tokenAtOffsetGo (n + 1) r p off =
+              (.between ql qr, (tokenAtOffsetGo n (tokenAtOffsetGo n (r.childrenWithTokens p).2 (p ++ [x.1]) off).2 (p ++ [y.1]) off).2) := by
+            simp only [tokenAtOffsetGo, hrange, hin, htok, hnode, hne, Bool.not_true, Bool.false_eq_true, ↓reduceIte,
+              Bool.not_false]
+            rw [hfilter, hxy]
+            simp only [List.map_cons, List.map_nil]
+            rw [hl1, hr1']
+          rw [hres]
+          refine ⟨b1, (b2.trans a2).trans hroot1, fun q o h => b3 q o (a3 q o (hmono1 q o h)), by simp [hnode],
+            fun _ h => absurd h hlen, fun _ _ => ⟨al, br, hl2.mono b2 b3, hr2, hlo, by omega⟩⟩
+    · -- a token answers itself
+      have hres : tokenAtOffsetGo (n + 1) r p off = (.single p, r) := by
+        simp [tokenAtOffsetGo, hrange, hin, htok, hnode]
+      rw [hres]
+      exact ⟨hr, rfl, fun _ _ h => h, fun _ => rfl, fun h => absurd h hnode, fun h => absurd h hnode⟩
+
+/-- **`token_at_offset` never panics inside its precondition** (any canonical red tree, any element, any
+    offset within the element's range; the fuel the model uses is enough) -/
+theorem tao_total (r : Red) (hr : RInv r) (p : Path) (t : Green) (s off : Nat) (hg : r.green p = some t)
+    (hs : r.start p = some s) (h1 : s ≤ off) (h2 : off ≤ s + t.len) : (r.tokenAtOffset p off).1 ≠ .panic := by
+  have hfuel : gsize t ≤ walkFuel r p := by simp [walkFuel, hg]; omega
+  obtain ⟨_, _, _, a4, a5, a6⟩ := tao_go (walkFuel r p) r p t s off hr hg hs hfuel h1 h2
+  unfold Red.tokenAtOffset
+  by_cases hn : t.isNode = true
+  · by_cases hl : t.len = 0
+    · rw [a5 hn hl]; simp
+    · have := a6 hn (Nat.pos_of_ne_zero hl)
+      intro hp; rw [hp] at this; exact this
+  · rw [a4 (by simpa using hn)]; simp
+
+/-- **`token_at_offset` returns the right tokens**: `None` exactly for an empty node; otherwise one
+    non-empty token of the tree whose closed range contains the offset, or the two that meet at it -/
+theorem tao_spec (r : Red) (hr : RInv r) (p : Path) (t : Green) (s off : Nat) (hg : r.green p = some t)
+    (hs : r.start p = some s) (h1 : s ≤ off) (h2 : off ≤ s + t.len) (hn : t.isNode = true) :
+    (t.len = 0 → (r.tokenAtOffset p off).1 = .none) ∧
+    (0 < t.len → TaoOk (r.tokenAtOffset p off).2 s (s + t.len) off (r.tokenAtOffset p off).1) := by
+  have hfuel : gsize t ≤ walkFuel r p := by simp [walkFuel, hg]; omega
+  obtain ⟨_, _, _, _, a5, a6⟩ := tao_go (walkFuel r p) r p t s off hr hg hs hfuel h1 h2
+  exact ⟨a5 hn, a6 hn⟩
+
 /-! ### non-vacuity: an empty node and a zero-length token at a boundary -/
 example :
     let g : Green := .node 0 0 2 0 [.tok 1 10 (some 0) 1, .node 2 1 0 0 [], .tok 3 10 (some 1) 0, .tok 4 11 (some 0) 1]
